@@ -381,6 +381,23 @@ func c14RouterCase(t *T) {
 		r.Shuffle(len(pool), func(i, j int) { pool[i], pool[j] = pool[j], pool[i] })
 		pool = pool[:8]
 	}
+	if len(pool) > 0 && chance(r, 1, 3) {
+		// a very long request path (one character of a pool path repeated a few hundred times): whatever it
+		// resolves to, a matched dynamic route is cached under it like under any other path
+		base := pick(r, pool).Path
+		var at []int
+		for i := 0; i < len(base); i++ {
+			if c := base[i]; c >= '0' && c <= '9' || c >= 'a' && c <= 'z' || c >= 'A' && c <= 'Z' {
+				at = append(at, i)
+			}
+		}
+		if len(at) > 0 {
+			k := pick(r, at)
+			long := base[:k] + strings.Repeat(string(base[k]), 260+r.IntN(200)) + base[k:]
+			pool = append(pool, Probe{long, "long"}, Probe{long, "long"})
+			t.Count("router.histories_with_a_long_path", 1)
+		}
+	}
 	n := 30 + r.IntN(50)
 	for i := 0; i < n; i++ {
 		path := pick(r, pool).Path
